@@ -4,6 +4,7 @@
   comparison functions of 8.8.3.2; case analysis of handleCachable.
 -/
 import LtVerif.Model.Cond304
+import LtVerif.Proofs.Date
 set_option linter.unusedSimpArgs false
 set_option linter.unusedVariables false
 namespace LtVerif
@@ -397,11 +398,44 @@ theorem handleCachable_304_iff (now : Int) (rq : CondReq) (et : Bytes) (lmod : O
             · left; exact he
             · right; exact (ifModifiedSince_false_iff now ims lmtime).mpr ht
 
+/-- the same for the responses lighttpd builds: Last-Modified is the IMF-fixdate of the
+    modification time, so "If-Modified-Since equals Last-Modified byte for byte" is just one
+    more way of carrying a date that is not earlier than the modification time -/
+theorem handleCachable_304_iff_emitted (now : Int) (rq : CondReq) (et : Bytes) (lmtime : Int)
+    (hm : rq.method ≤ 1) (h0 : -30610224000 ≤ lmtime) (h1 : lmtime ≤ 253402300799)
+    (hne : lmtime ≠ -1) :
+    handleCachable now rq (some et) (some (timeToStr lmtime)) lmtime = .notModified ↔
+      (∃ inm, rq.ifNoneMatch = some inm ∧ etagMatches et inm (!rq.hasRange) = true) ∨
+      (rq.ifNoneMatch = none ∧ ∃ ims t, rq.ifModifiedSince = some ims ∧
+         dateToTime now ims = some t ∧ lmtime ≤ t ∧ t ≠ -1) := by
+  rw [handleCachable_304_iff now rq et _ lmtime hm]
+  have hrt : dateToTime now (timeToStr lmtime) = some lmtime := by
+    rw [timeToStr_eq lmtime h0 h1]; exact (imf_roundtrip now lmtime h0 h1).2
+  constructor
+  · intro h
+    rcases h with h | ⟨hn, ims, lm, hi, hl, hor⟩
+    · left; exact h
+    · right
+      simp only [Option.some.injEq] at hl
+      refine ⟨hn, ims, ?_⟩
+      rcases hor with he | ⟨t, ht⟩
+      · refine ⟨lmtime, hi, ?_, Int.le_refl _, hne⟩
+        rw [he, ← hl]; exact hrt
+      · exact ⟨t, hi, ht⟩
+  · intro h
+    rcases h with h | ⟨hn, ims, t, hi, ht⟩
+    · left; exact h
+    · right
+      exact ⟨hn, ims, timeToStr lmtime, hi, rfl, Or.inr ⟨t, ht⟩⟩
+
 /-! ### concrete instances used by the non-vacuity examples of Props/C15.lean -/
 
 /-- GET with `If-None-Match: W/"x"` -/
 def exCondReq : CondReq :=
   { method := 0, hasRange := false, ifModifiedSince := none, ifNoneMatch := some (ofString "W/\"x\"") }
+/-- GET with `If-Modified-Since: Sun, 06 Nov 1994 08:49:37 GMT` (= instant 784111777) -/
+def exCondReqIms : CondReq :=
+  { method := 0, hasRange := false, ifNoneMatch := none, ifModifiedSince := some (ofString "Sun, 06 Nov 1994 08:49:37 GMT") }
 /-- the field value ` W/"y", W/"x"` as a list of entity tags -/
 def exItems : List (ETag × Bytes) := [(⟨true, ofString "y"⟩, ofString ", "), (⟨true, ofString "x"⟩, [])]
 
